@@ -53,8 +53,6 @@ func clip(s string) string {
 	return s
 }
 
-var theContext px.Context
-
 // handle runs one request; no panic escapes.
 func handle(r Req) (o Obs) {
 	switch r.Op {
@@ -86,8 +84,23 @@ func handle(r Req) (o Obs) {
 	case "T": // Context.ParseType = Parse + Resolve
 		func() {
 			defer func() { classify(recover(), &o) }()
-			t := theContext.ParseType(r.In)
-			o.Out = t.String()
+			var t px.Type
+			// types.Parse (operations P, V) runs without a Context, as its callers may; ParseType needs one
+			pcore.Do(func(c px.Context) { t = c.ParseType(r.In) })
+			if t == nil {
+				o.Out = "<nil>"
+				o.Aux = map[string]string{"nil": "true"}
+				return
+			}
+			// printing the type is not part of this property (C05): a fault there is only noted
+			func() {
+				defer func() {
+					if x := recover(); x != nil {
+						o.Aux = map[string]string{"printfail": fmt.Sprint(x)}
+					}
+				}()
+				o.Out = t.String()
+			}()
 		}()
 	case "L": // the lexer alone
 		o.Class = "ok"
@@ -195,12 +208,7 @@ func dumpList(vs []px.Value, depth int) string {
 	return lib.GList(es, "pv")
 }
 
-func serve() {
-	pcore.Do(func(c px.Context) {
-		theContext = c
-		workerMain(handle)
-	})
-}
+func serve() { workerMain(handle) }
 
 // faultMessage: Go's fixed prefixes of runtime faults, used to detect a fault wrapped as a parse error.
 func faultMessage(msg string) bool {
